@@ -261,7 +261,8 @@ def rule_g(R, ctx):
                     "client id itself, the clock and the data of THAT client's stored state (`states.get(id).clock`, "
                     "`.data` or the null marker), decided by nothing but `the iterator has an element` and `the client is known`, and "
                     "answers Err for an unknown client; (2) Awareness::update selects exactly the clients whose data is present; (3) a "
-                    "local write (set_local_state_raw) stores the new data and bumps the clock by one on an existing state, and creates "
+                    "local write (set_local_state_raw) stores the new data and bumps the clock by one on an existing state — decided by the map "
+                    "lookup alone, whatever the previous data was — and creates "
                     "ClientState(1, now, Some(data)) otherwise; a removal (remove_state) clears the data and bumps the clock by one, and "
                     "records ClientState(1, now, None) for an unknown client — a register whose local writes do not advance the clock is "
                     "ignored by every peer that already holds that clock")
@@ -317,8 +318,9 @@ def rule_g(R, ctx):
             while t[0] == "field" and t[1] == "tuple.0":
                 t = simp_deep(t[2])
             one = t[0] == "bin" and t[1].replace("WithOverflow", "") == "Add" and term_has_field(t[2], "ClientState.clock") and simp_deep(t[3])[0] == "const" and str(simp_deep(t[3])[1]).split("_")[0] == "1"
-            occ = any(l.polarity in ("Occupied", 0) or (isinstance(l.polarity, str) and "Occupied" in l.polarity) for l in fv.guards(i)) or True
-            bump_ok = bump_ok and one and occ
+            # decided by the map lookup alone: whatever the previous data was (a re-set after a removal must advance the clock too)
+            narrowed = [l.desc[:80] for l in fv.guards(i) if not (simp(l.term)[0] == "call" and re.search(r"DashMap(<.*>)?::entry$", F.strip_generics(simp(l.term)[1])))]
+            bump_ok = bump_ok and one and not narrowed
         R.ob("C18.g", f, "clock+1", bump_ok, "the stored clock advances by exactly one on a local %s (%d store(s))" % ("write" if data_kind == "Some" else "removal", len(bumps)))
         news = [c for c in f.calls_to("yrs::sync::awareness::ClientState::new")]
         new_ok = bool(news)
